@@ -562,7 +562,7 @@ func checkInjectorRow(r *R, rule, canonName, fnName string) {
 	g := c.Global("", "GetHeaderInjectors")
 	if o.Check(g != nil, "GetHeaderInjectors not found") {
 		for _, w := range globalWriters(c.Product(), g) {
-			if w.Fn.Name() == "init" {
+			if isInitFn(w.Fn) {
 				o.Check(c.Expr(w.Instr.(*ssa.Store).Val) == "func:fingerproxy.DefaultHeaderInjectors", "GetHeaderInjectors defaults to %s", c.Expr(w.Instr.(*ssa.Store).Val))
 			} else {
 				o.AtI(w.Instr).Fail("GetHeaderInjectors is reassigned in %s", funcName(w.Fn))
